@@ -137,3 +137,41 @@ example : hx 0 0 0 = 0 ∧ hy 0 0 = 0 ∧ hz 0 0 0 = 1 := by
   unfold hx hy hz; simp
 
 end Astral.C12Horiz
+
+namespace Astral.C12Horiz
+open Astral Real Astral.C08 Astral.C12
+
+/-- **the moon's side of the meridian**: whenever the moon is not at the zenith/nadir
+    (cos e ≠ 0), the sine of the reported azimuth has the sign of the east component: the moon is
+    reported in the eastern half (0°, 180°) exactly when `y > 0` (before its transit) and in the
+    western half (180°, 360°) exactly when `y < 0` -/
+theorem moon_side_of_meridian (lat lon : ℝ) (w : Int) (x y z e A : ℝ)
+    (hxyz : moonXYZ lat lon w = .ok (x, y, z))
+    (he : moonElevation lat lon w = .ok e) (hA : moonAzimuth lat lon w = .ok A)
+    (hne : x * x + y * y ≠ 0) :
+    (0 < y → 0 < Real.sin (radians A)) ∧ (y < 0 → Real.sin (radians A) < 0) := by
+  obtain ⟨hu, hs, hN, hE⟩ := moon_horizontal lat lon w x y z e A hxyz he hA
+  -- cos e = √(x² + y²) > 0
+  have hcpos : 0 < Real.cos (radians e) := by
+    unfold moonElevation at he
+    rw [hxyz] at he
+    simp only [bind, Except.bind, pure, Except.pure, Except.ok.injEq] at he
+    obtain ⟨_, hc⟩ := elevation_of_unit x y z hu
+    rw [he] at hc
+    rw [hc]
+    apply Real.sqrt_pos.mpr
+    have := add_nonneg (mul_self_nonneg x) (mul_self_nonneg y)
+    exact lt_of_le_of_ne this (Ne.symm hne)
+  constructor
+  · intro hy
+    by_contra hc
+    push Not at hc
+    have := mul_nonpos_of_nonneg_of_nonpos hcpos.le hc
+    linarith
+  · intro hy
+    by_contra hc
+    push Not at hc
+    have := mul_nonneg hcpos.le hc
+    linarith
+
+end Astral.C12Horiz
